@@ -3,7 +3,8 @@
 Proof: coq/C03/Props_C03.v — soundness of the Gallina bytecode verifier `verify : codeblock -> bool` over ALL abstract
 executions of a block (any path, both branches, every table entry, every throwing instruction also taking its
 exception edge): `verify_sound`, `verify_merge_agreement`, `step_safe`, `no_register_oob`, `no_env_underflow`,
-`locator_matches_assignment`, plus two table obligations that are re-proved whenever the opcode table changes.
+`locator_matches_assignment`, and for the verifier extended with the frame's iterator stack (the verdict): `verify2_sound`,
+`verify2_merge_agreement`, `step_safe2`, `iterator_never_underflows`, `verify2_covers_base_partial`, plus two table obligations that are re-proved whenever the opcode table changes.
 The opcode table (names, operand kinds, field names, return kind of every `operation`, and what
 `Vm::handle_exception_at` does on handler entry) is regenerated from the Rust sources on every run (tools/gen_c03.py).
 
@@ -61,6 +62,12 @@ CLASS_DOC = {
     "exc-edge-stack-residue": "DESIGN 5 #8: an instruction inside a protected range can throw while this frame has values pushed (call arguments, a pending "
                               "return value); handle_exception_at leaves them on the value stack",
     "exc-edge-binding-residue": "same mechanism for frame.binding_stack: GetLocator ... <throw> ... SetNameByLocator inside a protected range",
+    "iterator-stack-depth-merge": "two normal control-flow paths meet with different lengths of frame.iterators: a break / continue / return left an "
+                                  "iterator loop (for-of, for-in, for await) without closing its record, or closed the wrong one",
+    "exc-edge-iterator-residue": "a handler is entered with a frame.iterators length other than the one its close code assumes (handle_exception_at does "
+                                 "not touch frame.iterators): IteratorNext/IteratorValue inside an array-pattern handler drop their record when the call "
+                                 "throws; a for-in loop has no handler at all, so an exception out of its body leaves its record behind",
+    "iterator-stack-underflow": "an opcode that needs an iterator record is reachable with an empty iterator stack",
     "async-epilogue-depth-merge": "the handler covering an async function body lands on the epilogue that normal completion also falls into with its "
                                   "environments still open (benign: the epilogue touches neither)",
 }
@@ -280,10 +287,10 @@ def kernel_crosscheck(run, dump_out, result, info, limit):
     if not chosen:
         return None
     body = ["From Coq Require Import NArith ZArith List Bool FMapPositive.", "From Gen Require Import OpcodeSig.",
-            "From C03 Require Import Bytecode_C03.", "Import ListNotations.", "Local Open Scope N_scope."]
+            "From C03 Require Import Bytecode_C03 DeepBytecode_C03.", "Import ListNotations.", "Local Open Scope N_scope."]
     for k, (cid, bid, lines) in enumerate(chosen):
         body.append(coq_block_term(lines, "b%d" % k, info))
-    body.append("Eval vm_compute in [%s]." % "; ".join("verify b%d" % k for k in range(len(chosen))))
+    body.append("Eval vm_compute in [%s]." % "; ".join("verify2 b%d" % k for k in range(len(chosen))))
     rc, out, err = vlib.coq_eval("Cases_C03", "\n".join(body) + "\n", timeout=1500)
     if rc != 0:
         return {"error": (out + err)[-1500:]}
